@@ -5,11 +5,12 @@ import re
 
 import verif
 
-RULE = ("scripted loopback TCP peers against the real socks5.Scanner.Scan with 40-90 ms timeouts: every two-byte reply "
+RULE = ("scripted loopback TCP peers against the real socks5.Scanner.Scan with 80-160 ms timeouts: every two-byte reply "
         "05 xx and xx 00 plus a seeded sample of the others (thorough: all 65536), each delivered whole / split with a "
         "pause / followed by extra bytes or segments, peer reading the greeting first or not; fault scripts: refused, "
         "never accepted (full accept queue), rejected address, accept+stall, one byte+stall, one byte+close, close after "
-        "/ without reading, reset, one byte+reset, flood, late first/second byte, slow-but-in-time, cancellation before / "
+        "/ without reading, reset, one byte+reset, flood, late first/second byte, slow-but-in-time, a complete reply followed by a one-byte-per-quarter-"
+        "timeout trickle or an endless flood, cancellation before / "
         "during dial / during read / between reads / after the end, dial timeout 0, data timeout <= 0, negative dial "
         "timeout; a concurrent stage: ONE Scanner shared by 64 goroutines (as the scan engine shares it) against 12 peers with "
         "different answers, 30000 probes each judged on its own (thorough: 400000, a -race build, and a 1200-attempt "
@@ -32,6 +33,12 @@ def sent_stream(o):
         return None
     out = []
     for a in o["actions"] or []:
+        if a["kind"] == "trickle":      # one byte per period, for ever
+            out += [(a.get("data") or [0x2e])[0]] * 4
+            break
+        if a["kind"] == "stream":       # endless flood
+            out += [0x41] * 4
+            break
         if a["kind"] != "send":
             break
         out += a.get("data") or []
@@ -132,6 +139,13 @@ def script_term(o):
             if not data:
                 continue
             evs.append("(%s, RData %s %s)" % (z(a["delay"]), z(data[0]), verif.coq_bytes(data[1:8])))
+        elif a["kind"] == "trickle":
+            # one byte every a["delay"] ms for ever; the probe reads at most two bytes, six events are plenty
+            evs += ["(%s, RData %s [])" % (z(a["delay"]), z((a.get("data") or [0x2e])[0]))] * 6
+            break
+        elif a["kind"] == "stream":
+            evs.append("(%s, RData 65 [65;65;65;65;65;65;65])" % z(a["delay"]))
+            break
         elif a["kind"] == "close":
             # closing a socket whose receive queue still holds the unread greeting makes Linux send a reset
             evs.append("(%s, %s)" % (z(a["delay"]), "REOF" if o["read_first"] else "RReset"))
